@@ -235,16 +235,19 @@ def main():
     os.makedirs(objdir, exist_ok=True)
     globs, undef = [], set()
     shim = os.path.join(VERIF, "shims")
-    for be, defs in (("idn2", ["-DHAVE_LIBIDN2"]), ("idn", ["-DHAVE_LIBIDN", "-I" + shim]), ("idnkit", ["-DHAVE_IDNKIT", "-I" + shim])):
-        files = sorted(os.path.join(repo, "src", x) for x in os.listdir(os.path.join(repo, "src")) if x.endswith(".c")) if be == "idn2" else []
-        files += sorted(os.path.join(repo, "partial", be, x) for x in os.listdir(os.path.join(repo, "partial", be)) if x.endswith(".c"))
+    bes = []
+    for b, d in (("idn2", ["-DHAVE_LIBIDN2"]), ("idn", ["-DHAVE_LIBIDN", "-I" + shim]), ("idnkit", ["-DHAVE_IDNKIT", "-I" + shim])):
+        bes += [(b, b, d), (b + "x", b, d + ["-DEAV_EXTRA"])]          # every back end, without and with the EAV_EXTRA code
+    for be, be_dir, defs in bes:
+        files = sorted(os.path.join(repo, "src", x) for x in os.listdir(os.path.join(repo, "src")) if x.endswith(".c")) if be.startswith("idn2") else []
+        files += sorted(os.path.join(repo, "partial", be_dir, x) for x in os.listdir(os.path.join(repo, "partial", be_dir)) if x.endswith(".c"))
         for f in files:
             o = os.path.join(objdir, be + "_" + os.path.relpath(f, repo).replace("/", "_") + ".o")
             p = subprocess.run(["gcc", "-O2", "-w", "-std=gnu99", "-D_DEFAULT_SOURCE", "-D_XOPEN_SOURCE=700"] + defs +
                                ["-I" + os.path.join(repo, "include"), "-I" + repo, "-c", f, "-o", o],
                                stdout=subprocess.PIPE, stderr=subprocess.STDOUT)
             if p.returncode != 0:
-                if be == "idn2":
+                if be.startswith("idn2"):
                     raise TieError("cannot compile %s:\n%s" % (f, p.stdout.decode()[-1500:]))
                 continue       # shim headers missing: backend objects skipped (recorded below)
             rel = os.path.relpath(f, repo)
@@ -260,7 +263,8 @@ def main():
                 sec, sym = m.group(2), m.group(3)
                 if sec.startswith(".rodata") or sec.startswith(".data.rel.ro"):
                     continue
-                globs.append((rel, sym, sec))
+                if (rel, sym, sec) not in globs:
+                    globs.append((rel, sym, sec))
     L.append("/-- objects with static storage in WRITABLE sections (.data/.bss/common) of the library's object files -/")
     L.append("def mutableGlobals : List (String × String × String) := [%s]\n" % ", ".join('("%s", "%s", "%s")' % g for g in globs))
     lib = {os.path.basename(f)[:-2] for f in srcs}
